@@ -94,6 +94,6 @@ func (stallingPeer) OnPacket(ep *simnet.Endpoint, from string, b []byte) {
 	}
 }
 func (stallingPeer) OnStream(_ *simnet.Endpoint, _ string, c *simnet.Conn) {
-	_, _ = c.ReadAllFor(30 * time.Second)
+	_, _ = c.ReadAllFor(12 * time.Second)
 	c.Close()
 }
